@@ -23,7 +23,7 @@ from core import Exn, call, cstr, cbool, clist
 from reqgen import KINDS, KIND_ORDER, BINDINGS, NOW, cfgspec, rspec
 
 CLAIM = {
-    "text": "Coq theorems (Props/C10.v) over an executable model of Entity._parse_request (receiver addresses per service/binding/context with the aa/aq/pdp fallback and the odd-endpoint-spec branch of Config.endpoint, accepted_time_diff, must = want_authn_requests_signed or want_authn_requests_only_with_valid_cert), Entity.unravel per binding incl. the SOAP envelope reader, Request._loads (every non-TypeError exception of the signature check ends in IncorrectlySigned; valid_instance), SecurityContext.correctly_signed_message (root element test, unsigned-and-must, signed -> _check_signature: certificate selection of C03, per-certificate tool runs with the symbolic tool semantics of Model/Xmlsec.v, certificate validation) and Request._verify (Version, Destination, IssueInstant window): for EVERY configuration, request kind, binding and received text, a request is handed to the application only if its root element is the expected request type of that entry point, valid_instance passed, Version is 2.0, Destination is absent/empty or one of the receiver's own addresses for that service and binding (or the receiver has none), IssueInstant lies in [now-86400-slack, now+86400+slack), a signature child on the root verified (tool semantics) under a candidate certificate of the issuer that also passed certificate validation - with only_use_keys_in_metadata (the default) a certificate the metadata holds for the issuer with use signing - and want_authn_requests_signed / only_with_valid_cert imply a signature is present (C10_handed_over_only_if_valid, with the F16 repair of proposed_fix/C10-1.diff in the model; C10_before_fix_refuted keeps the witness that without it only_valid_cert hands over a request whose signature verified under no certificate). Coverage of the request element itself by the verified signature and refusal of every modification of a signed request are PROVED ONLY for the code state with the enveloping pre-check of the C01 repair (C10_signature_covers_request, C10_tamper, both for pre = true and for either duplicate-ID policy of the tool); for the code as it is they are REFUTED by a wrapping witness (C10_covers_refuted_without_precheck) and proved under the hypothesis that the pre-check predicate holds of the received document (C10_covers_partial, C10_tamper_partial). The documented entry-point table (method -> request class, msgtype, service, root tag accepted by <msgtype>_from_string, SOAP reader and its root tag, pass-through of must/only_valid_cert) is regenerated from the code by recording and proved equal to the table the model uses (C10_table_is_documented). Tie to the code: on every run the real entry points and the model are run on the same cases (all 8 request kinds, Redirect/POST/SOAP and the odd bindings, signed/unsigned/wrong key x want_authn_requests_signed x only_with_valid_cert x validate_certificate x only_use_keys_in_metadata x metadata key layouts, every mutation operator on signed requests incl. 33 wrapping variants under both duplicate-ID policies, destination variants incl. near misses over 8 endpoint layouts, IssueInstant around both edges for 4 allowances, versions, schema-invalid requests, wrong roots, truncated/garbled encodings and SOAP shapes, seeded random combinations), compared at handed-over/refused granularity.",
+    "text": "Coq theorems (Props/C10.v) over an executable model of Entity._parse_request (receiver addresses per service/binding/context with the aa/aq/pdp fallback and the odd-endpoint-spec branch of Config.endpoint, accepted_time_diff, must = want_authn_requests_signed or want_authn_requests_only_with_valid_cert), Entity.unravel per binding incl. the SOAP envelope reader, Request._loads (every non-TypeError exception of the signature check ends in IncorrectlySigned; valid_instance), SecurityContext.correctly_signed_message (root element test, unsigned-and-must, signed -> _check_signature: certificate selection of C03, per-certificate tool runs with the symbolic tool semantics of Model/Xmlsec.v, certificate validation) and Request._verify (Version, Destination, IssueInstant window): for EVERY configuration, request kind, binding and received text, a request is handed to the application only if its root element is the expected request type of that entry point, valid_instance passed, Version is 2.0, Destination is absent/empty or one of the receiver's own addresses for that service and binding (or the receiver has none), IssueInstant lies in [now-86400-slack, now+86400+slack), a signature child on the root verified (tool semantics) under a candidate certificate of the issuer that also passed certificate validation - with only_use_keys_in_metadata (the default) a certificate the metadata holds for the issuer with use signing - and want_authn_requests_signed / only_with_valid_cert imply a signature is present (C10_handed_over_only_if_valid, with the F16 repair of proposed_fix/C10-1.diff in the model; C10_before_fix_refuted keeps the witness that without it only_valid_cert hands over a request whose signature verified under no certificate). Coverage of the request element itself by the verified signature and refusal of every modification of a signed request are PROVED ONLY for the code state with the enveloping pre-check of the C01 repair (C10_signature_covers_request, C10_tamper, both for pre = true and for either duplicate-ID policy of the tool); for the code as it is they are REFUTED by a wrapping witness (C10_covers_refuted_without_precheck) and proved under the hypothesis that the pre-check predicate holds of the received document (C10_covers_partial, C10_tamper_partial). The documented entry-point table (method -> request class, msgtype, service, root tag accepted by <msgtype>_from_string, SOAP reader and its root tag, pass-through of the text and must) is regenerated from the code by recording and proved equal to the table the model uses (C10_table_is_documented). Tie to the code: on every run the real entry points and the model are run on the same cases (all 8 request kinds, Redirect/POST/SOAP and the odd bindings, signed/unsigned/wrong key x want_authn_requests_signed x only_with_valid_cert x validate_certificate x only_use_keys_in_metadata x metadata key layouts, every mutation operator on signed requests incl. 33 wrapping variants under both duplicate-ID policies, destination variants incl. near misses over 8 endpoint layouts, IssueInstant around both edges for 4 allowances, versions, schema-invalid requests, wrong roots, truncated/garbled encodings and SOAP shapes, seeded random combinations), compared at handed-over/refused granularity.",
     "note": "Trusted: Coq kernel + vm_compute; the hand-written model is tied to the code by testing (the correspondence above), not proof; signatures are symbolic (a signature node records key, intactness and the digested content) and every statement about verification is relative to the stand-in tool's node-selection semantics (real xmlsec1 is absent); valid_instance (C13), certificate-chain validation (cert.py) and the transport decoders (C14) enter the model as classified inputs computed by the harness itself. EXPECTS /repo + proposed_fix/C10-1.diff (F16). Known finding (depends on the C01 repair): without the enveloping pre-check a forged request carrying a genuine signed request of the same sender inside Extensions / ds:Object is handed over. Only tested, not proved: agreement of model and code; the IssueInstant edges exactly at now-86400-slack and now+86400+slack are run but not compared; a Redirect-binding query-string signature is never seen by _parse_request (the application must call verify_redirect_signature, property C15).",
     "technique": "machine-checked proof (Coq) + regenerated-table obligation + model/implementation correspondence + implementation-level oracle",
 }
@@ -58,6 +58,11 @@ def IMPORTS():
 
 WRAP_KEY = "wrapped-request-handed-over:%s"
 F16_KEY = "unverified-signature-handed-over:only_valid_cert"
+
+
+class _Acted(object):
+    """handle_logout_request reached local_logout: the request was acted upon"""
+    message = True
 
 
 def call_exact(f, *a):
@@ -104,7 +109,7 @@ class Cases(object):
             self.valid_certs[k] = ok
         return self.valid_certs[k]
 
-    def add_doc(self, fam, cs, kind, bname, xml, meta, r, signer=None, soap_env=g.SOAP_ENV, note=None):
+    def add_doc(self, fam, cs, kind, bname, xml, meta, r, signer=None, soap_env=g.SOAP_ENV, note=None, via=None):
         """a well-formed request document sent cleanly over the binding"""
         term, f = g.doc_coq(xml, meta["valid"])
         if bname == "soap":
@@ -113,37 +118,50 @@ class Cases(object):
             wire = "(WText (Xml %s))" % term
         text = g.encode(xml, bname, soap_env)
         facts = dict(doc=f, meta=meta, signer=signer, r=r)
-        self.add(fam, cs, kind, bname, text, wire, facts, note)
+        self.add(fam, cs, kind, bname, text, wire, facts, note, via)
 
-    def add(self, fam, cs, kind, bname, text, wire, facts, note=None):
+    def add(self, fam, cs, kind, bname, text, wire, facts, note=None, via=None):
         ctx = self.ctx
-        ident = (repr(sorted(cs.items())), kind, bname, text)
+        ident = (repr(sorted(cs.items())), kind, bname, text, via)
         if ident in self.seen:
             return
         self.seen.add(ident)
         ent = g.entity_for(cs)
-        fn = getattr(ent, KINDS[kind]["method"])
         os.environ["PV_XMLSEC_DUP"] = cs["dup"]
         try:
-            got = call_exact(fn, text, BINDINGS[bname][0]) if EXACT else call(fn, text, BINDINGS[bname][0])
+            if via == "handle_logout_request":
+                # Saml2Client.handle_logout_request: the library's own consumer of a parsed LogoutRequest; observable =
+                # whether it ACTED on the request (reached local_logout for the named subject)
+                acted = []
+                ent.local_logout = lambda name_id: acted.append(name_id) or True
+                nid = g.build_request(facts["r"]).name_id
+                got = call(ent.handle_logout_request, text, nid, BINDINGS[bname][0])
+                del ent.local_logout
+                got = _Acted() if acted else (got if isinstance(got, Exn) else Exn("NotActedUpon"))
+            else:
+                fn = getattr(ent, KINDS[kind]["method"])
+                got = call_exact(fn, text, BINDINGS[bname][0]) if EXACT else call(fn, text, BINDINGS[bname][0])
         finally:
             os.environ.pop("PV_XMLSEC_DUP", None)
         accepted = not isinstance(got, Exn) and got is not None
         if accepted and not hasattr(got, "message"):
             accepted = False
             got = Exn("NotARequestObject")
-        if EXACT:
+        if EXACT and not via:
             impl = True if accepted else got
         else:
             impl = True if accepted else Exn("refused")
         vc = self.valid_certs_for(cs)
         coq = "(%s, %s, %s, %s)" % (g.cfg_coq(cs, vc), KINDS[kind]["coq"], BINDINGS[bname][1], wire)
         show = dict(family=fam, cfg={k: v for k, v in cs.items()}, kind=kind, binding=bname, note=note)
+        if via:
+            show["via"] = via
         if facts:
             show["mutation"] = facts["meta"].get("name")
             show["request"] = facts["r"]
             show["signer"] = facts["signer"]
-        replay = dict(cfg=cs, kind=kind, binding=bname, text=text, note=note, mutation=show.get("mutation"))
+        replay = dict(cfg=cs, kind=kind, binding=bname, text=text, note=note, mutation=show.get("mutation"), via=via,
+                      request=facts["r"] if facts else None)
         uncompared = bool(facts and self.edge(cs, facts))
         ctx.count("family:" + fam)
         ctx.count("kind:" + kind)
@@ -151,6 +169,8 @@ class Cases(object):
         ctx.count("outcome:" + ("handed-over" if accepted else "None" if got is None else got.name))
         if uncompared:
             ctx.count("uncompared:issue-instant-exactly-at-an-edge")
+        elif EXACT and via:
+            ctx.count("uncompared:exact-mode-has-no-class-for-" + via)
         else:
             self.cases.append(dict(id=len(self.cases), coq=coq, impl=impl, show=show, replay=replay))
         self.oracle(cs, kind, bname, accepted, got, facts, replay, show)
@@ -421,6 +441,32 @@ def fam_mutations(C, quick):
         signed_states(C, "mutation", cs, "logout", bname, rspec(kind="logout", issuer=env.IDP_ID), [m])
 
 
+def fam_handle_logout(C, quick):
+    """Saml2Client.handle_logout_request (calls _parse_request itself): it acts (local_logout) only on a request that is handed over"""
+    for bname, slack in itertools.product(["soap", "post", "redirect"], [None, 60]):
+        cs = cfgspec(etype="sp", eps="sp-full", slack=slack)
+        w = 86400 + (slack or 0)
+        own = [u for u in g.own_endpoints(cs, "single_logout_service", bname) if u]
+        for dest, dt, ver in [(None, 0, "2.0"), (own[0], 0, "2.0"), (own[0] + "/", 0, "2.0"), (g.EVIL, 0, "2.0"), (None, w + 1, "2.0"),
+                              (None, -w - 1, "2.0"), (None, w - 1, "2.0"), (None, 0, "1.1")]:
+            r = rspec(kind="logout", issuer=env.IDP_ID, destination=dest, dt=dt, version=ver)
+            for st in ["unsigned", "signed", "wrongkey", "edit-issue-instant", "corrupt-sigvalue", "add-attribute", "swap-keyinfo"]:
+                if quick and st not in ("unsigned", "signed", "wrongkey") and (dt != 0 or ver != "2.0"):
+                    continue
+                key = "idp"
+                if st == "unsigned":
+                    x, meta, signer = g.request_xml(r), dict(valid=True, modified=False, wrap=None), None
+                elif st == "signed":
+                    x, meta, signer = g.request_xml(r, sign=key), dict(valid=True, modified=False, wrap=None), key
+                elif st == "wrongkey":
+                    x, meta, signer = g.request_xml(r, sign="other"), dict(valid=True, modified=False, wrap=None), "other"
+                else:
+                    mm = g.mutate(g.request_xml(r, sign=key), st, r)
+                    x, meta, signer = mm[0], mm[1], key
+                C.add_doc("sp-handle-logout", cs, "logout", bname, x, _named(meta, st if st not in ("unsigned", "signed", "wrongkey") else "none"),
+                          r, signer=signer, via="handle_logout_request")
+
+
 def fam_wrapping(C, quick):
     """a forged request carrying a genuine signed one inside (Extensions before / after the root's signature child, ds:Object)"""
     for kind, bname, want, ovc, dup in itertools.product(["authn", "logout", "attrq"], ["post", "soap", "redirect"], [None, True], [None, True],
@@ -547,7 +593,7 @@ def fam_encodings(C, quick):
 
 def fam_random(C, quick, rng):
     """seeded random combinations of everything above"""
-    n = 350 if quick else 6000
+    n = 350 if quick else 25000
     muts = g.SIGNED_MUTATIONS + g.WRAPS[::3]
     for _ in range(n):
         etype = rng.choice(["idp", "idp", "idp", "sp", "aa"])
@@ -587,6 +633,7 @@ def run(ctx):
         fam_cert_selection(C, ctx.quick)
         fam_mutations(C, ctx.quick)
         fam_wrapping(C, ctx.quick)
+        fam_handle_logout(C, ctx.quick)
         fam_wrong_root(C, ctx.quick)
         fam_encodings(C, ctx.quick)
         fam_random(C, ctx.quick, ctx.rng)
@@ -632,6 +679,13 @@ def replay(ctx, payload):
     with env.Clock(NOW):
         ent = g.entity_for(cs)
         os.environ["PV_XMLSEC_DUP"] = cs.get("dup", "fail")
+        if inp.get("via") == "handle_logout_request":
+            acted = []
+            ent.local_logout = lambda name_id: acted.append(name_id) or True
+            got = call(ent.handle_logout_request, text, g.build_request(inp["request"]).name_id, BINDINGS[bname][0])
+            print("implementation outcome (handle_logout_request): %s; local_logout %s" % (
+                got if isinstance(got, Exn) else type(got).__name__, "REACHED for %s" % acted[0].text if acted else "not reached"))
+            return 0
         got = call(getattr(ent, KINDS[kind]["method"]), text, BINDINGS[bname][0])
     if isinstance(got, Exn) or got is None:
         print("implementation outcome: refused (%s)" % (got,))
